@@ -17,6 +17,26 @@ def _members(k: int = 3):
     return ms[:k]
 
 
+ZERO_CRC = b"payload-with-zero-crc:\xf3\x13\xd6\xd3"  # zlib.crc32(...) == 0: a stored digest that is falsy
+
+
+def zero_base(chain: str, header: str):
+    """Like py_base, but the middle member's CRC32 is exactly 0."""
+    import zlib
+
+    import py7zr
+
+    assert zlib.crc32(ZERO_CRC) == 0
+    ms = _members(3)
+    ms[1] = ("dir/zero.bin", ZERO_CRC)
+    bio = io.BytesIO()
+    with py7zr.SevenZipFile(bio, "w", filters=chains.py_filters(chain)) as z:
+        _hdr(z, header)
+        for n, d in ms:
+            z.writestr(d, n)
+    return _finish(f"py:{chain}:{header}:zerocrc", bio.getvalue(), None, ms)
+
+
 def py_base(chain: str, header: str, folders: int = 1, tmpdir: str | None = None):
     import py7zr
 
@@ -88,6 +108,10 @@ def all_bases(tier: str):
         specs += [("COPY", "encoded", 2), ("LZMA2", "encoded", 4)]
     for c, h, f in specs:
         out.append(py_base(c, h, f))
+    out.append(zero_base("COPY", "raw"))
+    if tier != "quick":
+        out.append(zero_base("LZMA2", "encoded"))
+        out.append(zero_base("BZIP2", "raw"))
     C = [("COPY", {})]
     Z = [("LZMA2", {})]
     refs = [
